@@ -3,3 +3,6 @@ import PabuProofs.Lemmas.RoundRuleExcept
 import PabuProofs.Lemmas.MES
 import PabuProofs.Properties.C02
 import PabuProofs.Properties.C07
+import PabuProofs.Lemmas.Knapsack
+import PabuProofs.Lemmas.KnapsackLift
+import PabuProofs.Properties.C04
